@@ -1,3 +1,5 @@
 import CrdtModel.Audit.Tool
+import CrdtModel.Props.Addenda
+import CrdtModel.Witness.NestedMore
 import CrdtModel.Props.C14
 #audit_ns Crdt.C14
